@@ -1,5 +1,335 @@
-import EnvVerif.Lemmas.Basic
+/-
+  Props/C11.lean — SSKR (`src/extension/sskr.rs`).
+
+  "An envelope split into SSKR shares can be recovered from a set of share envelopes exactly
+  when that set satisfies the split's group-and-member threshold policy; the recovered
+  envelope's subject is the original one; any set below the quorum yields an error
+  (`InvalidShares`) rather than a wrong envelope, and share envelopes from different splits
+  mixed together are sorted by identifier and recovered or refused accordingly."
+
+  Model: `Model/Recipient.lean` (`addSskrShare`, `sskrSplit`, `sskrSharesIn`, `sskrJoin`).
+  The shares that `sskr_generate_using` makes are explicit arguments; the dependency enters
+  as `S : Sskr` (`combine`, `identifier`) with the law `SskrLaws S shares quorum secret ident`
+  ("`shares` are the shares of one split of `secret` whose policy is `quorum`"), satisfied
+  by the toy instance `ToyRec.sskr` (`ToyRec.sskr_laws`).  Vocabulary
+  (`Lemmas/RecipientLemmas.lean`):
+  * `RecL.shareEnv h e s` — the envelope `add_sskr_share` makes from `e` and the share `s`;
+  * `Obs.encryptSubjectSpec A ck n e` — `e` with its subject encrypted under the content key
+    (what `sskr_split` is applied to);
+  * `RecL.shareAssertion h s` — the assertion `'sskrShare': s`.
+
+  The `HashMap` in which the Rust groups the shares by identifier has an unspecified
+  iteration order; `c11_group_order` shows that no outcome depends on it.
+-/
+import EnvVerif.Lemmas.RecipientLemmas
 namespace EnvVerif
-/-- placeholder while the property theorems are being written -/
-theorem c11_sort_asc_id {as : List Env} (hs : AscDigests as) : sortByDigest as = as := sortByDigest_of_asc hs
+open Env ToyDeps ToyRec RecL RecL.Ex
+
+section
+variable (h : Hash) (A : Aead)
+
+/-! ### splitting -/
+
+/-- C11: `sskr_split` with the generated shares `groups` returns, group by group, one
+envelope per share; each is the receiver plus the one `'sskrShare'` assertion: same subject
+(the encrypted one), and — when the share's assertion is not shadowed — exactly one more
+assertion; it never fails and never panics -/
+theorem c11_split_shape {e : Env} (hi : Inv h e) (groups : List (List Cbor)) :
+    sskrSplit h e groups = .ok (groups.map fun g => g.map (shareEnv h e)) ∧
+    ∀ g ∈ groups, ∀ s ∈ g,
+      (shareEnv h e s).subject = e.subject ∧
+      (shareEnv h e s).assertions = AW.normAdd e.assertions (shareAssertion h s) ∧
+      Inv h (shareEnv h e s) := by
+  constructor
+  · induction groups with
+    | nil => rfl
+    | cons g gs ih =>
+      unfold sskrSplit
+      rw [sskrSplitGroup_closed h hi g, ih]
+      rfl
+  · intro g _ s _
+    refine ⟨shareEnv_subject h e s, shareEnv_assertions h e s, ?_⟩
+    have hasg : ∀ a ∈ e.assertions, Inv h a := fun a ha =>
+      ⟨(WFList_iff h _).1 (InvL.wf_assertions hi.1) a ha, (CanonList_iff _).1 (InvL.canon_assertions hi.2) a ha⟩
+    have hsa : Inv h (shareAssertion h s) := by
+      simp [Inv, shareAssertion, shareKV, newAssertion, newKnownValue, newLeaf]
+    apply rebuild_inv h (Obs.inv_subject hi)
+    · intro a ha
+      rcases AW.mem_normAdd_sub ha with h1 | h1
+      · exact hasg a h1
+      · rw [h1]; exact hsa
+    · exact AW.normAdd_asc (InvL.canon_assertions_asc hi.2)
+    · intro a ha
+      rcases AW.mem_normAdd_sub ha with h1 | h1
+      · exact InvL.canon_assertions_slotOk hi.2 a h1
+      · rw [h1]; rfl
+
+/-! ### joining shares of one split -/
+
+/-- the shares of one split all carry one identifier, so a list of them forms one group -/
+theorem filter_ident_of_split {S : Sskr} {shares : List Cbor} {quorum : List Cbor → Bool}
+    {secret : Bytes} {ident : Nat} (L : SskrLaws S shares quorum secret ident)
+    {sub : List Cbor} (hs : ∀ s ∈ sub, s ∈ shares) (i : Nat) :
+    sub.filter (fun s => S.identifier s == i) = if i = ident then sub else [] := by
+  split
+  · rename_i hi
+    subst hi
+    apply List.filter_eq_self.2
+    intro s hm
+    simp [L.ident_eq s (hs s hm)]
+  · rename_i hi
+    apply List.filter_eq_nil_iff.2
+    intro s hm
+    rw [L.ident_eq s (hs s hm)]
+    simpa using fun hh => hi hh.symm
+
+/-- C11: the share envelopes of one split, any selection with any repetition: `sskr_join`
+returns the subject of the original envelope exactly when the selection is duplicate-free
+and satisfies the policy, and `InvalidShares` otherwise — never a panic, never another
+envelope.  (`hnone`: the envelope carried no `'sskrShare'` assertion before the split;
+`hfresh`: no element of it carries the digest of one of the new share assertions, which
+`add_assertion_envelope` would silently ignore.) -/
+theorem c11_join_iff_quorum (LA : AeadLaws A) {S : Sskr} {shares : List Cbor}
+    {quorum : List Cbor → Bool} {ck : Bytes} {ident : Nat}
+    (L : SskrLaws S shares quorum ck ident) {e : Env} (hi : Inv h e)
+    (hH : ∀ b, (h.H b).Valid) (hrt : RoundTrips h e.subject) (hck : ck.length = 32) (n : Bytes)
+    (hnone : assertionsWithPredicate e (shareKV h) = [])
+    (s0 : Cbor) (subs : List Cbor) (hs : ∀ s ∈ s0 :: subs, s ∈ shares)
+    (hfresh : ∀ s ∈ s0 :: subs, ∀ y ∈ e.assertions, y.digest ≠ (shareAssertion h s).digest) :
+    (((s0 :: subs).Nodup ∧ quorum (s0 :: subs) = true) →
+      sskrJoin h A S ((s0 :: subs).map (shareEnv h (Obs.encryptSubjectSpec A ck n e))) =
+        .ok e.subject) ∧
+    (¬ ((s0 :: subs).Nodup ∧ quorum (s0 :: subs) = true) →
+      sskrJoin h A S ((s0 :: subs).map (shareEnv h (Obs.encryptSubjectSpec A ck n e))) =
+        .err "InvalidShares") := by
+  have hok : ∀ s ∈ s0 :: subs, ShareOk s := fun s hm => L.shape s (hs s hm)
+  obtain ⟨j1, j2⟩ := join_shareEnvs h A LA S hi hH hrt hck n hnone s0 subs hok hfresh
+  obtain ⟨c1, c2⟩ := L.combine_iff (s0 :: subs) hs
+  constructor
+  · intro hq
+    apply j1
+    refine ⟨ident, ?_, ?_⟩
+    · rw [filter_ident_of_split L hs, if_pos rfl]; simp
+    · rw [filter_ident_of_split L hs, if_pos rfl]; exact c1.2 hq
+  · intro hq
+    apply j2
+    intro i hne
+    rw [filter_ident_of_split L hs] at hne ⊢
+    split at hne
+    · rename_i hi'
+      rw [if_pos hi', c2 hq]
+      intro hh; cases hh
+    · exact absurd rfl hne
+
+/-- C11, the statement as an equivalence -/
+theorem c11_join_ok_iff (LA : AeadLaws A) {S : Sskr} {shares : List Cbor}
+    {quorum : List Cbor → Bool} {ck : Bytes} {ident : Nat}
+    (L : SskrLaws S shares quorum ck ident) {e : Env} (hi : Inv h e)
+    (hH : ∀ b, (h.H b).Valid) (hrt : RoundTrips h e.subject) (hck : ck.length = 32) (n : Bytes)
+    (hnone : assertionsWithPredicate e (shareKV h) = [])
+    (s0 : Cbor) (subs : List Cbor) (hs : ∀ s ∈ s0 :: subs, s ∈ shares)
+    (hfresh : ∀ s ∈ s0 :: subs, ∀ y ∈ e.assertions, y.digest ≠ (shareAssertion h s).digest) :
+    (∃ x, sskrJoin h A S ((s0 :: subs).map (shareEnv h (Obs.encryptSubjectSpec A ck n e))) = .ok x) ↔
+      ((s0 :: subs).Nodup ∧ quorum (s0 :: subs) = true) := by
+  obtain ⟨j1, j2⟩ := c11_join_iff_quorum h A LA L hi hH hrt hck n hnone s0 subs hs hfresh
+  constructor
+  · rintro ⟨x, hx⟩
+    apply Classical.byContradiction
+    intro hq
+    rw [j2 hq] at hx
+    cases hx
+  · intro hq
+    exact ⟨_, j1 hq⟩
+
+/-! ### mixtures of two splits -/
+
+/-- C11: share envelopes of two splits of the same encrypted envelope mixed together
+(different identifiers; the second split may be of another secret): the shares are sorted by
+identifier, and `sskr_join` recovers the subject exactly when the shares of the first split
+among them are duplicate-free and reach its quorum, or the second split is of the same
+content key and its shares do; otherwise `InvalidShares`. -/
+theorem c11_join_mixed (LA : AeadLaws A) {S : Sskr} {shares1 shares2 : List Cbor}
+    {q1 q2 : List Cbor → Bool} {ck secret2 : Bytes} {i1 i2 : Nat} (hne : i1 ≠ i2)
+    (L1 : SskrLaws S shares1 q1 ck i1) (L2 : SskrLaws S shares2 q2 secret2 i2)
+    {e : Env} (hi : Inv h e)
+    (hH : ∀ b, (h.H b).Valid) (hrt : RoundTrips h e.subject) (hck : ck.length = 32) (n : Bytes)
+    (hnone : assertionsWithPredicate e (shareKV h) = [])
+    (s0 : Cbor) (subs : List Cbor) (hs : ∀ s ∈ s0 :: subs, s ∈ shares1 ∨ s ∈ shares2)
+    (hfresh : ∀ s ∈ s0 :: subs, ∀ y ∈ e.assertions, y.digest ≠ (shareAssertion h s).digest) :
+    let sub1 := (s0 :: subs).filter (fun s => S.identifier s == i1)
+    let sub2 := (s0 :: subs).filter (fun s => S.identifier s == i2)
+    let good := (sub1.Nodup ∧ q1 sub1 = true) ∨ (secret2 = ck ∧ sub2.Nodup ∧ q2 sub2 = true)
+    (good → sskrJoin h A S ((s0 :: subs).map (shareEnv h (Obs.encryptSubjectSpec A ck n e))) =
+        .ok e.subject) ∧
+    (¬ good → sskrJoin h A S ((s0 :: subs).map (shareEnv h (Obs.encryptSubjectSpec A ck n e))) =
+        .err "InvalidShares") := by
+  intro sub1 sub2 good
+  have hok : ∀ s ∈ s0 :: subs, ShareOk s := by
+    intro s hm
+    rcases hs s hm with h1 | h2
+    · exact L1.shape s h1
+    · exact L2.shape s h2
+  have hid : ∀ s ∈ s0 :: subs, (S.identifier s = i1 ∧ s ∈ shares1) ∨ (S.identifier s = i2 ∧ s ∈ shares2) := by
+    intro s hm
+    rcases hs s hm with h1 | h2
+    · exact Or.inl ⟨L1.ident_eq s h1, h1⟩
+    · exact Or.inr ⟨L2.ident_eq s h2, h2⟩
+  have hsub1 : ∀ s ∈ sub1, s ∈ shares1 := by
+    intro s hm
+    obtain ⟨hm1, hm2⟩ := List.mem_filter.1 hm
+    rcases hid s hm1 with ⟨_, hh⟩ | ⟨hh, _⟩
+    · exact hh
+    · rw [hh] at hm2; simp at hm2; exact absurd hm2.symm hne
+  have hsub2 : ∀ s ∈ sub2, s ∈ shares2 := by
+    intro s hm
+    obtain ⟨hm1, hm2⟩ := List.mem_filter.1 hm
+    rcases hid s hm1 with ⟨hh, _⟩ | ⟨_, hh⟩
+    · rw [hh] at hm2; simp at hm2; exact absurd hm2 hne
+    · exact hh
+  have hother : ∀ i, i ≠ i1 → i ≠ i2 → (s0 :: subs).filter (fun s => S.identifier s == i) = [] := by
+    intro i n1 n2
+    apply List.filter_eq_nil_iff.2
+    intro s hm
+    rcases hid s hm with ⟨hh, _⟩ | ⟨hh, _⟩
+    · rw [hh]; simpa using fun x => n1 x.symm
+    · rw [hh]; simpa using fun x => n2 x.symm
+  obtain ⟨j1, j2⟩ := join_shareEnvs h A LA S hi hH hrt hck n hnone s0 subs hok hfresh
+  obtain ⟨a1, a2⟩ := L1.combine_iff sub1 hsub1
+  obtain ⟨b1, b2⟩ := L2.combine_iff sub2 hsub2
+  constructor
+  · rintro (hq | ⟨hsec, hq⟩)
+    · apply j1
+      refine ⟨i1, ?_, a1.2 hq⟩
+      intro hnil
+      have hq2 : q1 sub1 = true := hq.2
+      have : sub1 = [] := hnil
+      rw [this, L1.quorum_nil] at hq2
+      cases hq2
+    · apply j1
+      subst hsec
+      refine ⟨i2, ?_, b1.2 hq⟩
+      intro hnil
+      have hq2 : q2 sub2 = true := hq.2
+      have : sub2 = [] := hnil
+      rw [this, L2.quorum_nil] at hq2
+      cases hq2
+  · intro hbad
+    apply j2
+    intro i hnil
+    by_cases e1 : i = i1
+    · subst e1
+      intro hc
+      exact hbad (Or.inl (a1.1 hc))
+    · by_cases e2 : i = i2
+      · subst e2
+        intro hc
+        by_cases hq : sub2.Nodup ∧ q2 sub2 = true
+        · have := (b1.2 hq).symm.trans hc
+          simp only [Option.some.injEq] at this
+          exact hbad (Or.inr ⟨this, hq⟩)
+        · have := (b2 hq).symm.trans hc
+          cases this
+      · exact absurd (hother i e1 e2) hnil
+
+/-! ### totality: never a panic, never another envelope -/
+
+/-- C11: `sskr_join` never panics on canonical envelopes (in particular not on decorated
+`'sskrShare'` assertions, obscured share objects, shares too short to carry an identifier,
+or an empty list) -/
+theorem c11_join_total (S : Sskr) (envs : List Env) (hc : ∀ e ∈ envs, Canon e) (p : String) :
+    sskrJoin h A S envs ≠ .panic p := by
+  unfold sskrJoin
+  split
+  · intro hh; cases hh
+  · unfold sskrSharesIn
+    cases hall : allShares h envs with
+    | ok l =>
+      simp only
+      cases envs with
+      | nil => simp at *
+      | cons first rest =>
+        rw [joinGroups_eq h A S first rest
+          (fun k q => RecL.decryptSubject_np h A (canon_node_ne (hc first List.mem_cons_self)) q)]
+        split <;> (intro hh; cases hh)
+    | err x => intro hh; cases hh
+    | panic x => exact absurd hall (allShares_np h envs x)
+
+/-- C11: whatever `sskr_join` returns is the subject of a successful `decrypt_subject` of the
+*first* envelope under a 32-byte secret that one identifier-group of the presented shares
+combines to: it is never made from anything else -/
+theorem c11_join_result (S : Sskr) (envs : List Env) {x : Env}
+    (hx : sskrJoin h A S envs = .ok x) :
+    ∃ first rest shares i key y, envs = first :: rest ∧ allShares h envs = .ok shares ∧
+      S.combine (shares.filter (fun s => S.identifier s == i)) = some key ∧ key.length = 32 ∧
+      decryptSubject h A key first = .ok y ∧ x = y.subject := by
+  unfold sskrJoin at hx
+  split at hx
+  · cases hx
+  · unfold sskrSharesIn at hx
+    cases hall : allShares h envs with
+    | ok l =>
+      rw [hall] at hx
+      simp only at hx
+      obtain ⟨first, rest, g, key, y, he, hg, hcomb, hlen, hd, hxy⟩ := joinGroups_ok h A S hx
+      obtain ⟨i, hgi, _⟩ := (mem_groupShares S l g).1 hg
+      exact ⟨first, rest, l, i, key, y, he, rfl, hgi ▸ hcomb, hlen, hd, hxy⟩
+    | err y => rw [hall] at hx; cases hx
+    | panic y => rw [hall] at hx; cases hx
+
+/-- C11: the order in which the identifier groups are tried (the iteration order of a
+`HashMap` in the Rust) does not influence the outcome -/
+theorem c11_group_order (LA : AeadLaws A) (S : Sskr) (first : Env) (rest : List Env)
+    (hc : Canon first) {G G' : List (List Cbor)} (hp : G.Perm G') :
+    joinGroups h A S (first :: rest) G = joinGroups h A S (first :: rest) G' :=
+  joinGroups_perm h A LA S first rest
+    (fun _ q => RecL.decryptSubject_np h A (canon_node_ne hc) q) hp
+
+end
+
+/-! ### the hypotheses are satisfiable: a 2-of-3 split of `"b" [ 1: 10 ]` -/
+
+/-- the three shares are pairwise different and fresh for `nd` -/
+theorem Ex.shs_fresh : ∀ s ∈ Ex.shs, ∀ y ∈ Ex.nd.assertions,
+    y.digest ≠ (shareAssertion Ex.H s).digest := by
+  decide +kernel
+
+/-- member `mi` of the single group -/
+def Ex.sh (mi : Nat) : Cbor := share ⟨5, 1, 0, 2, mi, Ex.ck⟩
+
+theorem Ex.shs_eq : Ex.shs = [Ex.sh 0, Ex.sh 1, Ex.sh 2] := by rfl
+
+theorem Ex.sh_inj {a b : Nat} (hne : a ≠ b) : Ex.sh a ≠ Ex.sh b := by
+  intro he
+  have := congrArg fields he
+  simp only [Ex.sh, fields_share, Option.some.injEq, ShareFields.mk.injEq] at this
+  exact hne this.2.2.2.2.1
+
+/- members 0 and 1 recover the subject; member 0 twice does not; member 0 alone does not -/
+example :
+    sskrJoin H toyAead sskr ([Ex.sh 0, Ex.sh 1].map (shareEnv H (Obs.encryptSubjectSpec toyAead ck [] nd))) =
+      .ok nd.subject :=
+  (c11_join_iff_quorum H toyAead toyAead_laws (sskr_laws 5 spec ck) nd_inv hash_valid
+    (by rfl) ck_len [] nd_noShares (Ex.sh 0) [Ex.sh 1]
+    (by intro s hs; show s ∈ Ex.shs; rw [Ex.shs_eq]; simp at hs ⊢; rcases hs with rfl | rfl <;> simp)
+    (fun s hs => Ex.shs_fresh s (by rw [Ex.shs_eq]; simp at hs ⊢; rcases hs with rfl | rfl <;> simp))).1
+    ⟨by simp [Ex.sh_inj], by decide +kernel⟩
+
+example :
+    sskrJoin H toyAead sskr ([Ex.sh 0, Ex.sh 0].map (shareEnv H (Obs.encryptSubjectSpec toyAead ck [] nd))) =
+      .err "InvalidShares" :=
+  (c11_join_iff_quorum H toyAead toyAead_laws (sskr_laws 5 spec ck) nd_inv hash_valid
+    (by rfl) ck_len [] nd_noShares (Ex.sh 0) [Ex.sh 0]
+    (by intro s hs; show s ∈ Ex.shs; rw [Ex.shs_eq]; simp at hs ⊢; simp [hs])
+    (fun s hs => Ex.shs_fresh s (by rw [Ex.shs_eq]; simp at hs ⊢; simp [hs]))).2
+    (by intro hh; simp at hh)
+
+example :
+    sskrJoin H toyAead sskr ([Ex.sh 2].map (shareEnv H (Obs.encryptSubjectSpec toyAead ck [] nd))) =
+      .err "InvalidShares" :=
+  (c11_join_iff_quorum H toyAead toyAead_laws (sskr_laws 5 spec ck) nd_inv hash_valid
+    (by rfl) ck_len [] nd_noShares (Ex.sh 2) []
+    (by intro s hs; show s ∈ Ex.shs; rw [Ex.shs_eq]; simp at hs ⊢; simp [hs])
+    (fun s hs => Ex.shs_fresh s (by rw [Ex.shs_eq]; simp at hs ⊢; simp [hs]))).2
+    (by intro hh; have := hh.2; revert this; decide +kernel)
+
 end EnvVerif
